@@ -264,3 +264,175 @@ Definition outgoing_with (stages : list stage) (c : config) (r : request) : obs 
   observe (run_stack stages (init_headers (c_be_headers c)) (c_be_query c) (c_static c) p).
 
 Definition outgoing (c : config) (r : request) : obs := outgoing_with default_exec c r.
+
+(* ------------------------------------------------------------------------------------ *)
+(* wire level of the query string: url.QueryEscape / url.QueryUnescape, url.Values.Encode (as
+   far as a reader that parses again can tell: keys in map order instead of sorted order),
+   url.ParseQuery, and the text proxy/balancing.go writes into URL.RawQuery.  The pair level
+   above (flatten / group) is what remains of this layer once Proof/C08.v has shown that
+   parsing undoes encoding. *)
+
+Definition amp : ascii := "&"%char.
+Definition eqc : ascii := "="%char.
+Definition semi : ascii := ";"%char.
+Definition pct : ascii := "%"%char.
+Definition plus : ascii := "+"%char.
+Definition spc : ascii := " "%char.
+
+(* shouldEscape(c, encodeQueryComponent) = false *)
+Definition unreserved (c : ascii) : bool :=
+  is_lower c || is_upper c || is_digit c || ascii_mem c "-_.~".
+
+Definition hex_digit (n : N) : ascii :=
+  if (n <? 10)%N then ascii_of_N (48 + n) else ascii_of_N (55 + n).   (* "0123456789ABCDEF" *)
+
+(* ishex / unhex: both cases accepted *)
+Definition hexval (c : ascii) : option N :=
+  let n := N_of_ascii c in
+  if is_digit c then Some (n - 48)%N
+  else if in_range 65 70 c then Some (n - 55)%N
+  else if in_range 97 102 c then Some (n - 87)%N
+  else None.
+
+Definition escape_byte (c : ascii) : string :=
+  if unreserved c then String c EmptyString
+  else if Ascii.eqb c spc then String plus EmptyString
+  else let n := N_of_ascii c in
+       String pct (String (hex_digit (n / 16)) (String (hex_digit (n mod 16)) EmptyString)).
+
+Fixpoint query_escape (s : string) : string :=
+  match s with
+  | EmptyString => EmptyString
+  | String c r => (escape_byte c ++ query_escape r)%string
+  end.
+
+(* None = EscapeError *)
+Fixpoint query_unescape (s : string) : option string :=
+  match s with
+  | EmptyString => Some EmptyString
+  | String c r =>
+      if Ascii.eqb c pct then
+        match r with
+        | String a (String b r') =>
+            match hexval a, hexval b with
+            | Some x, Some y => option_map (String (ascii_of_N (16 * x + y))) (query_unescape r')
+            | _, _ => None
+            end
+        | _ => None
+        end
+      else if Ascii.eqb c plus then option_map (String spc) (query_unescape r)
+      else option_map (String c) (query_unescape r)
+  end.
+
+Definition encode_pair (p : string * string) : string :=
+  (query_escape (fst p) ++ String eqc (query_escape (snd p)))%string.
+
+Fixpoint join_amp (l : list string) : string :=
+  match l with
+  | [] => EmptyString
+  | [x] => x
+  | x :: r => (x ++ String amp (join_amp r))%string
+  end.
+
+Definition encode_pairs (ps : list (string * string)) : string := join_amp (map encode_pair ps).
+
+(* strings.Split on one byte: never the empty list *)
+Fixpoint split_on (d : ascii) (s : string) : list string :=
+  match s with
+  | EmptyString => [EmptyString]
+  | String c r =>
+      if Ascii.eqb c d then EmptyString :: split_on d r
+      else match split_on d r with
+           | x :: xs => String c x :: xs
+           | [] => [String c EmptyString]
+           end
+  end.
+
+(* strings.Cut *)
+Fixpoint cut (d : ascii) (s : string) : string * string :=
+  match s with
+  | EmptyString => (EmptyString, EmptyString)
+  | String c r => if Ascii.eqb c d then (EmptyString, r)
+                  else let '(a, b) := cut d r in (String c a, b)
+  end.
+
+(* one '&'-separated piece of url.ParseQuery: empty pieces, pieces with ';' and pieces whose
+   key or value does not unescape are dropped (the error is reported, the rest is kept) *)
+Definition parse_segment (seg : string) : option (string * string) :=
+  match seg with
+  | EmptyString => None
+  | _ =>
+      if ascii_mem semi seg then None
+      else let '(k, v) := cut eqc seg in
+           match query_unescape k, query_unescape v with
+           | Some k', Some v' => Some (k', v')
+           | _, _ => None
+           end
+  end.
+
+Fixpoint filter_map {A B} (f : A -> option B) (l : list A) : list B :=
+  match l with
+  | [] => []
+  | x :: r => match f x with Some y => y :: filter_map f r | None => filter_map f r end
+  end.
+
+Definition parse_query (raw : string) : list (string * string) :=
+  filter_map parse_segment (split_on amp raw).
+
+(* proxy/balancing.go: RawQuery of url.Parse(host + path) is the text after '?' in url_pattern;
+   if len(r.Query) > 0 { if len(RawQuery) > 0 { RawQuery += "&" + Encode() } else { RawQuery += Encode() } } *)
+Definition render_raw (static_raw : string) (q : hmap) : string :=
+  match q with
+  | [] => static_raw
+  | _ => match static_raw with
+         | EmptyString => encode_pairs (flatten q)
+         | _ => (static_raw ++ String amp (encode_pairs (flatten q)))%string
+         end
+  end.
+
+(* the Query map the load balancer renders, and the RawQuery the executor is handed *)
+Definition final_query (c : config) (r : request) : hmap :=
+  be_filter (c_be_query c)
+    (p_query (new_request (builder_of (c_adapter c)) (eff_headers (init_headers (c_ep_headers c))) (c_ep_query c) r)).
+
+Definition outgoing_raw (c : config) (static_raw : string) (r : request) : string :=
+  render_raw static_raw (final_query c r).
+
+(* ------------------------------------------------------------------------------------ *)
+(* GraphQL backends (proxy/graphql.go): the stage sits between the two filters and the load
+   balancer.  It gives the request its own Content-Length / Content-Type and, with the GET
+   transport, its own query / operationName / variables parameters (the client's parameters
+   of these names are dropped).  What the operation's parameter values and the body are is
+   C07's subject: here they are inputs. *)
+
+Definition CT := "Content-Type".
+Definition CL := "Content-Length".
+Definition json_ct := "application/json".
+
+Inductive gql :=
+| GNone                      (* plain backend *)
+| GPost (clen : string)      (* POST transport: length of the generated body *)
+| GGet (opq : hmap).         (* GET transport: the parameters generated for the operation *)
+
+Definition gql_keys : list string := ["query"; "operationName"; "variables"].
+
+Definition gql_headers (n : string) (h : hmap) : hmap := set CT [json_ct] (set CL [n] h).
+
+Definition gql_query (opq q : hmap) : hmap :=
+  fold_left (fun acc kv => set (fst kv) (snd kv) acc) opq
+            (remove "variables" (remove "operationName" (remove "query" q))).
+
+Definition graphql_stage (g : gql) (p : preq) : preq :=
+  match g with
+  | GNone => p
+  | GPost n => {| p_headers := gql_headers n (p_headers p); p_query := p_query p; p_url := p_url p |}
+  | GGet opq => {| p_headers := gql_headers "0" (p_headers p); p_query := gql_query opq (p_query p); p_url := p_url p |}
+  end.
+
+(* the default stack with the GraphQL stage in its place (Proof/C08.v: the place is the one
+   newStack_names gives it, and with GNone this is `outgoing`) *)
+Definition outgoing_gql (g : gql) (c : config) (r : request) : obs :=
+  let be_h := init_headers (c_be_headers c) in
+  let st := run_stage be_h (c_be_query c) (c_static c) in
+  let p := new_request (builder_of (c_adapter c)) (eff_headers (init_headers (c_ep_headers c))) (c_ep_query c) r in
+  observe (st SRender (graphql_stage g (st SFilterHeaders (st SFilterQuery p)))).
